@@ -189,7 +189,7 @@ def keys_correspondence(seed, n):
 def correspondence(pid, tier, seed):
     base = fam_solver.correspondence('C16', tier, seed)          # histories: one record per instant (code 11 = length)
     broken = [b for b in base['broken']]
-    kb, kn, ksamples, kdist = keys_correspondence(seed, 400 if tier == 'quick' else 5000)
+    kb, kn, ksamples, kdist = keys_correspondence(seed, lib.size(400, 5000, tier))
     broken += kb
     return dict(ok=not broken, evaluations=base['evaluations'] + kn, nontrivial=kn, samples=ksamples, rule=RULE,
                 distribution=dict(histories=base['distribution'], keys=kdist), broken=broken, failing_cases=[])
